@@ -6,4 +6,12 @@ Emit == (Len(hist) = MaxHist /\ Quiescent) => PrintT("TRACE " \o ToJson([model |
 \* one witness history per (library state, last event): hide the histories
 View == <<libvars, IF hist = <<>> THEN <<>> ELSE hist[Len(hist)].ev>>
 EmitAny == (hist # <<>> /\ Quiescent) => PrintT("TRACE " \o ToJson([model |-> "new", laddr |-> LAddr, prereg |-> PreReg, hist |-> hist, final |-> Snapshot]))
+\* Sharpness of R1_Decided (SSHForward_LostReject.cfg overrides DSendClosed with this): forward() returning "delivered"
+\* from its <-e.closed branch, so that handleChannels does not reject the open.  TLC must report R1_Decided violated.
+DSendClosedLost(d) ==
+  /\ dpc[d] = "send" /\ closedCh[dent[d]]
+  /\ dpc' = [dpc EXCEPT ![d] = "idle"]
+  /\ dcur' = [dcur EXCEPT ![d] = 0]
+  /\ dent' = [dent EXCEPT ![d] = "-"]
+  /\ UNCHANGED <<reg, buf, closedCh, mu, inbox, nsent, otgt, ost, odel, apc, aAfter, aRes, aIdx, cpc, hist, acalls>>
 =============================================================================
